@@ -24,6 +24,15 @@ def key_values(F):
     return vk, sk
 
 
+def has_unknown(x):
+    """does the '?' marker (an input outside the domain) occur anywhere in a logged value"""
+    if x == ("?",):
+        return True
+    if isinstance(x, (tuple, list)):
+        return any(has_unknown(y) for y in x)
+    return False
+
+
 def one_fn(F, rx):
     fs = [f for f in F.fns.values() if "mir" in f and f["kind"] != "Closure" and re.search(rx, f["path"])]
     return fs[0] if len(fs) == 1 else None
@@ -55,7 +64,7 @@ def sign_rule(F):
         yield "sign", f, "unknown", "analysis failed: %r" % (e,)
         return
     oks = [fs[0] for v, fs in ret[1] if v == 0 and fs] if ret is not None and ret[0] == "en" else []
-    if len(oks) != 1 or oks[0][0] != "sigv":
+    if len(oks) != 1 or oks[0][0] != "sigv" or has_unknown(oks[0]):
         yield "sign", f, "unknown", "the returned signature is outside the domain"
         return
     hd0 = ("hd", (("bytes", ("seed",), 0, 32),))
@@ -111,7 +120,7 @@ def verify_rules(F):
         s = ssym(("sc", ("sig", 0), 32))
         want = ("cbytes", padd(pscale(psym(("A", 0)), smul(k, sconst(-1))), pscale(psym(("B",)), s)))
         eqs = ip.models.eq_tests
-        if ip.models.inconclusive or len(eqs) == 0 or any(("?",) in e for e in eqs):
+        if ip.models.inconclusive or len(eqs) == 0 or has_unknown(eqs):
             yield name, "equation", f, "unknown", "the compared values left the domain"
         elif len(eqs) == 1 and set(eqs[0]) == {want, Rb}:
             yield name, "equation", f, "ok", "the only comparison is compress(s B - k A) with the signature's R bytes; k = H(R || A || M), s = canonical scalar of bytes 32..64"
@@ -194,3 +203,189 @@ def clamp_rules(F):
                 yield name, f, "ok", "= to_montgomery(clamp(bytes) * B) with clamp(bytes) the unreduced integer"
             else:
                 yield name, f, "viol", "multiplies by %s, expected the unreduced integer clamp(bytes)" % (BQ.show_sp(got[2]) if got[2] is not None else "a value outside the domain")
+
+
+# ------------------------------------------------------------------------------------------------ Ed25519ph (prehashed, with context)
+DOM2 = ("lit", b"SigEd25519 no Ed25519 collisions")
+PH = ("bytes", ("hd", (MSG,)), 0, 64)
+
+
+def ctx_value(n):
+    if n is None:
+        return ("en", ((0, ()),))
+    return ("en", ((1, (("cref", ("arr", tuple(("byte", ("ctx",), j) for j in range(n)))),)),))
+
+
+def dom2(n):
+    k = 0 if n is None else n
+    return (DOM2, ("lit", b"\x01"), ("lit", bytes([k])), ("lit", b"") if k == 0 else ("bytes", ("ctx",), 0, k))
+
+
+def prehashed_sign_rule(F):
+    """yield (clause, fn, status, msg) for SigningKey::sign_prehashed with no context, a 3-byte, a 255-byte and a 256-byte context"""
+    vk, sk = key_values(F)
+    f = one_fn(F, r"signing::SigningKey::sign_prehashed$")
+    if f is None or sk is None:
+        yield "sign_prehashed", f, "missing", "sign_prehashed not found"
+        return
+    hd0 = ("hd", (("bytes", ("seed",), 0, 32),))
+    a = ssym(("sc", ("clamp", hd0, 0), 0))
+    for n in (None, 3, 255, 256):
+        clause = "sign_prehashed[context %s]" % ("none" if n is None else "%d bytes" % n)
+        try:
+            ret, ip = run(F, f, [sk, ("hs", (MSG,)), ctx_value(n)], tyenv={"MsgDigest": "sha2::Sha512"})
+        except Exception as e:
+            yield clause, f, "unknown", "analysis failed: %r" % (e,)
+            continue
+        v = variants(ret)
+        if n == 256:
+            yield clause, f, ("unknown" if v is None else ("ok" if v == {1} else "viol")), ("a 256-byte context is rejected with Err" if v == {1} else "a 256-byte context can be signed")
+            continue
+        oks = [fs[0] for vv, fs in ret[1] if vv == 0 and fs] if ret is not None and ret[0] == "en" else []
+        if len(oks) == 1 and has_unknown(oks[0]):
+            yield clause, f, "unknown", "a hashed input is outside the domain"
+            continue
+        if v != {0} or len(oks) != 1 or oks[0][0] != "sigv":
+            yield clause, f, "unknown" if v is None or not oks else "viol", "the result is not definitely Ok(signature) in the domain (variants %s)" % (v,)
+            continue
+        r = ssym(("h", dom2(n) + (("bytes", hd0, 32, 32), PH)))
+        Rtok = ("cbytes", pscale(psym(("B",)), r))
+        k = ssym(("h", dom2(n) + (Rtok, A_BYTES, PH)))
+        s = sadd(smul(k, a), r)
+        if oks[0][1] == Rtok and oks[0][2] == ("sbytes", s):
+            yield clause, f, "ok", "(compress(r B), k a + r) with r = H(dom2(1, ctx) || prefix || PH(M)), k = H(dom2(1, ctx) || R || A || PH(M)), dom2 = 'SigEd25519 no Ed25519 collisions' || 1 || len(ctx) || ctx"
+        else:
+            yield clause, f, "viol", "the signature is not (compress(r B), k a + r) over the dom2-prefixed hashes (length byte, context bytes, prefix, prehash in that order)"
+
+
+def run(F, f, args, tyenv=None, **scenario):      # (re-defined with tyenv support)
+    ip = BQ.BqInterp(F, BQ.BqModels(), step_budget=3_000_000)
+    ip.exact_small_vecs = True
+    for k, v in scenario.items():
+        setattr(ip.models, k, set(v) if isinstance(v, (list, tuple)) else v)
+    ret, root = ip.run_root(f, args, tyenv=tyenv)
+    return ret, ip
+
+
+def prehashed_verify_rules(F):
+    """yield (entry, clause, fn, status, msg) for verify_prehashed / verify_prehashed_strict"""
+    vk, sk = key_values(F)
+    for name, rx in (("verify_prehashed", r"verifying::VerifyingKey::verify_prehashed$"), ("verify_prehashed_strict", r"verifying::VerifyingKey::verify_prehashed_strict$")):
+        f = one_fn(F, rx)
+        if f is None or vk is None:
+            yield name, "anchor", f, "missing", "entry point not found"
+            continue
+        for n in (None, 3, 255):
+            clause = "equation[context %s]" % ("none" if n is None else "%d bytes" % n)
+            try:
+                ret, ip = run(F, f, [vk, ("hs", (MSG,)), ctx_value(n), ("sig", 0)], tyenv={"MsgDigest": "sha2::Sha512"})
+            except Exception as e:
+                yield name, clause, f, "unknown", "analysis failed: %r" % (e,)
+                continue
+            Rb = ("bytes", ("sig", 0), 0, 32)
+            k = ssym(("h", dom2(n) + (Rb, A_BYTES, PH)))
+            s = ssym(("sc", ("sig", 0), 32))
+            want = ("cbytes", padd(pscale(psym(("A", 0)), smul(k, sconst(-1))), pscale(psym(("B",)), s)))
+            eqs = ip.models.eq_tests
+            if ip.models.inconclusive or not eqs or has_unknown(eqs):
+                yield name, clause, f, "unknown", "the compared values left the domain"
+            elif len(eqs) == 1 and set(eqs[0]) == {want, Rb}:
+                yield name, clause, f, "ok", "the only comparison is compress(s B - k A) with the signature's R bytes, k = H(dom2(1, ctx) || R || A || PH(M))"
+            else:
+                yield name, clause, f, "viol", "the comparison is not compress(s B - H(dom2(1, ctx) || R || A || PH(M)) A) == R bytes"
+        try:
+            ret, ip = run(F, f, [vk, ("hs", (MSG,)), ctx_value(256), ("sig", 0)], tyenv={"MsgDigest": "sha2::Sha512"}, force_eq=1, force_small=0)
+            v = variants(ret)
+            yield name, "reject_long_context", f, ("unknown" if v is None else ("ok" if v == {1} else "viol")), \
+                ("a 256-byte context gives Err only" if v == {1} else "a 256-byte context can verify")
+        except Exception as e:
+            yield name, "reject_long_context", f, "unknown", "analysis failed: %r" % (e,)
+        try:
+            ret, ip = run(F, f, [vk, ("hs", (MSG,)), ctx_value(3), ("sig", 0)], tyenv={"MsgDigest": "sha2::Sha512"}, force_eq=0)
+            v = variants(ret)
+            yield name, "reject_mismatch", f, ("unknown" if v is None else ("ok" if v == {1} else "viol")), ("a failed comparison gives Err only" if v == {1} else "a failed comparison can return Ok")
+        except Exception as e:
+            yield name, "reject_mismatch", f, "unknown", "analysis failed: %r" % (e,)
+
+
+def key_decode_rules(F):
+    """yield (instance, fn, status, msg): every byte decoder of VerifyingKey stores the *input* bytes next to the point decoded from them
+    (Eq / Hash / the challenge hash use the stored bytes, so a decoder that re-encodes the point changes the key for non-canonical encodings)"""
+    fk = fields(F, VK)
+    inb = bytes_of(("in",), 0, 32)
+    want_c = ("st", (inb,))
+    want_p = psym(("dec", ("in",), 0))
+    for name, rx in (("VerifyingKey::from_bytes", r"verifying::VerifyingKey::from_bytes$"),
+                     ("VerifyingKey::try_from(&[u8])", r"VerifyingKey as core::convert::TryFrom<&\[u8\]>>::try_from$")):
+        f = one_fn(F, rx)
+        if f is None or not fk:
+            yield name, f, "missing", "decoder not found"
+            continue
+        try:
+            ret, ip = run(F, f, [inb])
+        except Exception as e:
+            yield name, f, "unknown", "analysis failed: %r" % (e,)
+            continue
+        oks = [fs[0] for v, fs in ret[1] if v == 0 and fs] if ret is not None and ret[0] == "en" else []
+        if len(oks) != 1 or oks[0][0] != "st" or len(oks[0][1]) != len(fk):
+            yield name, f, "unknown", "the decoded key is outside the domain"
+            continue
+        got = dict(zip(fk, oks[0][1]))
+        c, p = ip.deconst(got.get("compressed")), ip.deconst(got.get("point"))
+        if c == want_c and p == want_p:
+            yield name, f, "ok", "Ok(VerifyingKey { compressed: the 32 input bytes, point: decompress(input) }); Err when decompression fails"
+        elif c != want_c and c[0] == "st" and c[1] and c[1][0][0] in ("cbytes",):
+            yield name, f, "viol", "the stored encoding is compress(decoded point), not the input bytes: a non-canonical but accepted encoding is silently re-encoded"
+        elif has_unknown(describe_val(c)) or p[0] != "pl":
+            yield name, f, "unknown", "the decoded key is outside the domain"
+        else:
+            yield name, f, "viol", "the decoded key is not { compressed: input bytes, point: decompress(input) }"
+
+
+def describe_val(v):
+    try:
+        return BQ.describe(v[1][0]) if v[0] == "st" and v[1] else BQ.describe(v)
+    except Exception:
+        return ("?",)
+
+
+
+def x25519_rules(F):
+    """yield (instance, fn, status, msg): the X25519 API multiplies by the unreduced integer clamp(secret bytes)"""
+    kb = bytes_of(("k",), 0, 32)
+    ub = bytes_of(("u",), 0, 32)
+    kint = ssym(("int", ("clamp", ("k",), 0), 0))
+    their = ("st", (("st", (ub,)),))                 # PublicKey(MontgomeryPoint(u))
+    f = one_fn(F, r"^x25519_dalek::x25519::x25519$")
+    if f is not None:
+        try:
+            ret, ip = run(F, f, [kb, ub])
+            ok = ret is not None and ret[0] == "mbytes" and ret[1][0] == "mpt" and ret[1][1] == ("st", (ub,)) and ret[1][2] == kint
+            yield "x25519(k, u)", f, "ok" if ok else ("unknown" if ret is None or ret[0] != "mbytes" else "viol"), \
+                ("= bytes of clamp(k) * MontgomeryPoint(u), clamp(k) the unreduced integer" if ok else "the result is not bytes(clamp(k) * MontgomeryPoint(u))")
+        except Exception as e:
+            yield "x25519(k, u)", f, "unknown", "analysis failed: %r" % (e,)
+    for sec in ("EphemeralSecret", "ReusableSecret", "StaticSecret"):
+        secv = ("st", (kb,))
+        f = one_fn(F, r"x25519::%s::diffie_hellman$" % sec)
+        if f is not None:
+            try:
+                ret, ip = run(F, f, [secv, their])
+                inner = ret[1][0] if ret is not None and ret[0] == "st" and len(ret[1]) == 1 else None
+                ok = inner is not None and inner[0] == "mpt" and inner[1] == ("st", (ub,)) and inner[2] == kint
+                yield "%s::diffie_hellman" % sec, f, "ok" if ok else ("unknown" if inner is None or inner[0] != "mpt" else "viol"), \
+                    ("= SharedSecret(clamp(secret) * their_public), clamp(secret) the unreduced integer" if ok else
+                     "the shared secret is %s * their_public, expected the unreduced integer clamp(secret)" % (BQ.show_sp(inner[2]) if inner is not None and inner[0] == "mpt" and inner[2] is not None else "?"))
+            except Exception as e:
+                yield "%s::diffie_hellman" % sec, f, "unknown", "analysis failed: %r" % (e,)
+        f = one_fn(F, r"PublicKey as core::convert::From<&'?\w* ?[\w:]*%s>>::from$|impl .*From<&'?\w* ?[\w:]*%s> for [\w:]*PublicKey>::from$" % (sec, sec))
+        if f is not None:
+            try:
+                ret, ip = run(F, f, [secv])
+                inner = ret[1][0] if ret is not None and ret[0] == "st" and len(ret[1]) == 1 else None
+                want = ("mpt", ("to_montgomery", pscale(psym(("B",)), kint)), sconst(1))
+                ok = inner == want
+                yield "PublicKey::from(&%s)" % sec, f, "ok" if ok else ("unknown" if inner is None or inner[0] != "mpt" else "viol"), \
+                    ("= to_montgomery(clamp(secret) * B), clamp(secret) the unreduced integer" if ok else "the public key is not to_montgomery(clamp(secret) * B) with the unreduced integer")
+            except Exception as e:
+                yield "PublicKey::from(&%s)" % sec, f, "unknown", "analysis failed: %r" % (e,)
